@@ -179,6 +179,13 @@ def isChecked : Cmd → Bool
   | .fn _ _ => false
   | _ => true
 
+/-- The `break`/`continue` builtins themselves (whose failure — count out of range — is that of a
+    simple command). -/
+def isBrkCont : Cmd → Bool
+  | .brk _ => true
+  | .cont _ => true
+  | _ => false
+
 def status256 (n : Nat) : Nat := n % 256
 
 def sem : Nat → Ctx → Task → Env → Res
@@ -203,6 +210,24 @@ def sem : Nat → Ctx → Task → Env → Res
         | some (.exit, e2) => some (.exit, e2)
         | some (_, e2) => if e2.errexit then some (.exit, e2) else some (.norm, e2)
       else some (.norm, e1)
+    -- `! break` / `! continue`: the builtin's status is inverted, the loop is still left/resumed;
+    -- `break 0` (status 1) is a failing simple command like any other
+    | some (.brk m, e1) =>
+      if neg then some (.brk m, { e1 with status := if e1.status = 0 then 1 else 0 })
+      else if isBrkCont c && e1.status != 0 && !k.ign then
+        match sem n k (.trap e1.trapErr) e1 with
+        | none => none
+        | some (.exit, e2) => some (.exit, e2)
+        | some (_, e2) => if e2.errexit then some (.exit, e2) else some (.brk m, e2)
+      else some (.brk m, e1)
+    | some (.cont m, e1) =>
+      if neg then some (.cont m, { e1 with status := if e1.status = 0 then 1 else 0 })
+      else if isBrkCont c && e1.status != 0 && !k.ign then
+        match sem n k (.trap e1.trapErr) e1 with
+        | none => none
+        | some (.exit, e2) => some (.exit, e2)
+        | some (_, e2) => if e2.errexit then some (.exit, e2) else some (.cont m, e2)
+      else some (.cont m, e1)
     | some r => some r
   | n + 1, k, .loop u c b acc, e =>
     -- the condition list already counts as inside the loop for `break`/`continue`
